@@ -31,7 +31,9 @@ pub fn key_pool(r: &mut Rng) -> Vec<Vec<u8>> {
         vec![0xff, 0xff, 0xff],
     ];
     // long shared prefixes
-    let prefix: Vec<u8> = (0..r.range(8, 60)).map(|i| b'a' + (i % 7) as u8).collect();
+    // (one case in three: longer than 127 bytes, so that the shared-prefix length of a block entry needs a two-byte varint)
+    let plen = if r.chance(1, 3) { r.range(130, 300) } else { r.range(8, 60) };
+    let prefix: Vec<u8> = (0..plen).map(|i| b'a' + (i % 7) as u8).collect();
     for i in 0..12u8 {
         let mut k = prefix.clone();
         k.extend_from_slice(format!("/{:04}", i as u32 * 7).as_bytes());
